@@ -39,7 +39,8 @@ def Mode.name : Mode → String
 
 inductive Op
   | upd (client : Nat) (e : CExpr)
-  | obs (client : Nat) (ordinal : Nat) (e : CExpr) (cb : List Act) (mode : Mode)
+  | obs (client : Nat) (ordinal : Nat) (e : CExpr) (cb : List Act) (mode : Mode) (oc : Nat := 0) (twice : Bool := false)
+    -- oc: onclose calls the observation's own cancel function `oc` times; twice: a `reenter` onupdate calls it twice
   | cancel (client : Nat) (ordinal : Nat)
   | hangup (client : Nat)
   deriving Repr, Inhabited
@@ -47,17 +48,18 @@ inductive Op
 def Act.letter : Act → String
   | .ok => "o" | .err => "e" | .panic => "p" | .reenter => "r"
 
-def scriptText (cb : List Act) : String :=
-  if cb.isEmpty then "-" else String.join (cb.map Act.letter)
+def scriptText (cb : List Act) (oc : Nat) (twice : Bool) : String :=
+  let acts := if cb.isEmpty then "-" else String.join (cb.map (fun a => if a == .reenter && twice then "R" else a.letter))
+  if oc == 0 then acts else s!"{acts}/{oc}"
 
 def Op.text : Op → String
   | .upd c e => s!"{c} U {e.src}"
-  | .obs c _ e cb m => s!"{c} O {scriptText cb} {m.name} {e.src}"
+  | .obs c _ e cb m oc tw => s!"{c} O {scriptText cb oc tw} {m.name} {e.src}"
   | .cancel c k => s!"{c} C {k}"
   | .hangup c => s!"{c} H"
 
 def Op.client : Op → Nat
-  | .upd c _ => c | .obs c _ _ _ _ => c | .cancel c _ => c | .hangup c => c
+  | .upd c _ => c | .obs c _ _ _ _ _ _ => c | .cancel c _ => c | .hangup c => c
 
 /-- rendering of one event; `stopping` = the close happened during Stop -/
 def evText (stopping : Bool) : Ev St → String
@@ -104,7 +106,7 @@ def renderLog (m : Mode) (log atStop : List (Ev St)) : String :=
 
 /-- observers of a payload, by ordinal: (ordinal, mode) -/
 def observers (ops : List Op) : List (Nat × Mode) :=
-  ops.filterMap (fun o => match o with | .obs _ k _ _ m => some (k, m) | _ => none)
+  ops.filterMap (fun o => match o with | .obs _ k _ _ m _ _ => some (k, m) | _ => none)
 
 /-- run a serialisation on the transliterated loop; returns the final state, the per-operation
 characters (with client), and the engine id of every ordinal -/
@@ -135,7 +137,7 @@ def simWith (stepf : Impl.State St → Msg St → Impl.State St) (ops : List Op)
           | _ => "0"
         chars := chars ++ [(c, ch)]
         s := s'
-      | .obs c k e cb _ =>
+      | .obs c k e cb _ _ _ =>
         ids := ids ++ [(k, s.lastID + 1)]
         s := stepf s (.add e.eval cb)
         chars := chars ++ [(c, ".")]
@@ -165,7 +167,7 @@ def simSpec (ops : List Op) : SimRes (Spec.State St) := Id.run do
         | _ => "0"
       chars := chars ++ [(c, ch)]
       s := s'
-    | .obs c k e cb _ =>
+    | .obs c k e cb _ _ _ =>
       ids := ids ++ [(k, s.count + 1)]
       s := Spec.step s (.add e.eval cb)
       chars := chars ++ [(c, ".")]
@@ -333,7 +335,7 @@ def genScript (allowReenter : Bool) : Gen (List Act) := do
 def genSeqOps : Gen (List Op) := do
   let nClients := (← rand 4) + 1
   let nOps := (← rand 23) + 3
-  let allowReenter ← chance 1 12
+  let allowReenter ← chance 1 5
   let mut ops : List Op := []
   let mut nObs := 0
   if ← chance 7 10 then
@@ -346,7 +348,15 @@ def genSeqOps : Gen (List Op) := do
       ops := ops ++ [.upd c (← genUpdExpr)]
     else if r < 70 || nObs == 0 then
       nObs := nObs + 1
-      ops := ops ++ [.obs c nObs (← genObsExpr) (← genScript allowReenter) .L]
+      -- cancel from inside onclose (0, 1 or 2 calls), alone or together with cancel from inside onupdate (once or twice)
+      let oc ← if allowReenter then pick [0, 1, 1, 2] else pure 0
+      let tw ← chance 1 3
+      if allowReenter && (← chance 1 2) then
+        -- the pattern itself: an always-evaluating expression, cancel inside the k-th onupdate, then inside onclose
+        let k := (← rand 2) + 1
+        ops := ops ++ [.obs c nObs (← pick [.cur, .lit 3, .plus 1]) (List.replicate k .ok ++ [.reenter]) .L oc tw]
+      else
+        ops := ops ++ [.obs c nObs (← genObsExpr) (← genScript allowReenter) .L oc tw]
     else if r < 93 then
       let k := (← rand nObs) + 1
       ops := ops ++ [.cancel c k]
@@ -354,6 +364,9 @@ def genSeqOps : Gen (List Op) := do
         ops := ops ++ [.cancel (← rand nClients) k]     -- cancelled twice
     else
       ops := ops ++ [.hangup c]
+  -- something must still be served after the last callback: one more request
+  if allowReenter then
+    ops := ops ++ [.upd (← rand nClients) (.plus 1)]
   pure ops
 
 /-- "par" class: after `U n0` and 1–3 observers of `$` (client 0), 2–4 clients concurrently issue
@@ -417,6 +430,13 @@ def corpus : List Case :=
     -- the same, then cancelled from outside as well (twice), by two clients
     mkSeq "C17-corpus-7" "corpus" [.upd 0 (.lit 0), .obs 1 1 .cur [.ok, .reenter] .L, .upd 0 (.plus 1), .cancel 1 1, .cancel 2 1,
       .obs 2 2 .cur [.ok, .reenter] .L, .upd 0 (.plus 1), .upd 0 (.plus 1)],
+    -- cancel from inside onupdate AND AGAIN from inside the onclose that follows; then more requests
+    mkSeq "C17-corpus-10" "corpus" [.upd 0 (.lit 0), .obs 1 1 .cur [.ok, .reenter] .L 1, .obs 2 2 .cur [] .L, .upd 0 (.plus 1), .upd 0 (.plus 1), .upd 0 (.plus 1)],
+    -- cancel (twice) from inside onclose only, for every reason of closing: cancelled, failed expression, callback
+    -- error, panic, hang-up, stop; and cancel twice inside onupdate
+    mkSeq "C17-corpus-11" "corpus" [.upd 0 (.lit 0), .obs 1 1 .cur [] .L 2, .obs 1 2 .evenOnly [] .L 2, .obs 2 3 .cur [.ok, .err] .L 1,
+      .obs 2 4 .cur [.ok, .panic] .L 2, .obs 0 5 .cur [] .L 1, .obs 0 6 .cur [.ok, .ok, .reenter] .L 2 true, .cancel 1 1, .upd 0 (.plus 1),
+      .upd 0 (.plus 1), .hangup 2, .obs 1 7 .cur [] .L 2, .obs 1 8 .fail [] .L 1, .upd 0 (.plus 1)],
     -- concurrent clients: failing observers, double cancel from two clients
     mkPar "C17-corpus-6" "corpus-par"
       [.upd 0 (.lit 0), .obs 0 1 .cur [] .E, .obs 0 2 .cur [] .F, .obs 0 3 .cur [.ok, .ok, .err] .N]
@@ -441,7 +461,7 @@ def gen (seed n : Nat) (thorough : Bool) : List Case := Id.run do
       out := mkPar s!"C17-{i}" s!"par/{clients.length}" pre clients :: out
     else
       let (ops, _) := genSeqOps.run (seedOf seed (1700000 + i))
-      let reent := ops.any (fun o => match o with | .obs _ _ _ cb _ => cb.contains .reenter | _ => false)
+      let reent := ops.any (fun o => match o with | .obs _ _ _ cb _ oc _ => cb.contains .reenter || oc > 0 | _ => false)
       let strat := if reent then "seq/reenter" else if ops.length ≤ 8 then "seq/short" else "seq/long"
       out := mkSeq s!"C17-{i}" strat ops :: out
   pure (corpus ++ out.reverse)
